@@ -74,6 +74,15 @@ FamSubnet == [Base EXCEPT
   !.lim = ("sys" :> LR(INF, 9, 9, 9, 9, 9, 3, 9)) @@ ("trans" :> LR(INF, 9, 9, 9, 9, 9, 2, 9)) @@
           ("conn" :> Open) @@ ("stream" :> Open),
   !.kinds = {"openconn", "setpeer", "done"}]
+\* the subnet counter against scope-level refusals: an open from a1 that passes the connLimiter (cap 2) and is
+\* then refused by system's inbound limit must leave the counter equal to the connections really open, so
+\* that later opens from a1 stop at the cap (four ids: one refused open consumes none)
+FamSubCnt == [Base EXCEPT
+  !.conns = <<"c1", "c2", "c3", "c4">>,
+  !.eps = {"a1", "n0"}, !.epip = [e \in {"a1", "n0"} |-> e = "a1"], !.epb = ("a1" :> {"a1/32"}) @@ ("n0" :> {}),
+  !.cap = ("a1/32" :> 2),
+  !.lim = ("sys" :> LR(INF, 9, 9, 9, 1, 9, 9, 9)) @@ ("conn" :> Open) @@ ("stream" :> Open),
+  !.dirs = {"in", "out"}, !.kinds = {"openconn", "done"}, !.retry = TRUE]
 \* b1: allow-listed network with a configured prefix limit that the instance cannot exceed
 AlNEps == {"b1", "n0"}
 FamAllow == [Base EXCEPT
@@ -174,7 +183,7 @@ Cfg == CASE Fam = "connq" -> FamConnQ [] Fam = "streamq" -> FamStreamQ [] Fam = 
          [] Fam = "mem" -> FamMem [] Fam = "memp" -> FamMemP [] Fam = "span" -> FamSpan
          [] Fam = "conn" -> FamConn [] Fam = "subnet" -> FamSubnet [] Fam = "allow" -> FamAllow [] Fam = "connmem" -> FamConnMem
          [] Fam = "stream" -> FamStream [] Fam = "streammem" -> FamStreamMem
-         [] Fam = "gcmem" -> FamGcMem [] Fam = "alsub" -> FamAlSub [] Fam = "xfer" -> FamXfer [] Fam = "xfer3" -> FamXfer3
+         [] Fam = "gcmem" -> FamGcMem [] Fam = "alsub" -> FamAlSub [] Fam = "xfer" -> FamXfer [] Fam = "xfer3" -> FamXfer3 [] Fam = "subcnt" -> FamSubCnt
          [] Fam = "cmem" -> FamCMem [] Fam = "cconn" -> FamCConn [] Fam = "cstream" -> FamCStream
 
 MCConns == Cfg.conns      MCStreams == Cfg.streams    MCSpans == Cfg.spans
@@ -206,7 +215,8 @@ St == [use  |-> [x \in {y \in All : w.use[y] # Z} |-> Tup(w.use[x])],
                       w.obj[o].dir, w.obj[o].fd, w.obj[o].ep, w.obj[o].ipv, w.obj[o].rf>>],
        cnt  |-> [b \in {y \in DOMAIN Cap : w.cnt[y] # 0} |-> w.cnt[b]],
        ref  |-> [s \in {y \in GCable : w.ref[y] # 0} |-> w.ref[s]],
-       held |-> [x \in {y \in All : w.held[y] # 0} |-> w.held[x]]]
+       held |-> [x \in {y \in All : w.held[y] # 0} |-> w.held[x]],
+       rfo  |-> w.rfo]
 EmitEdge == PrintT(<<"VFEDGE", ToJson([s |-> St, op |-> op', t |-> St'])>>)
 Conf == [fam |-> Fam, inf |-> INF, lim |-> Cfg.lim, deflim |-> Cfg.deflim, conns |-> Cfg.conns, streams |-> Cfg.streams,
          spans |-> Cfg.spans, peers |-> Cfg.peers, protos |-> Cfg.protos, svcs |-> Cfg.svcs, eps |-> Cfg.eps,
